@@ -7,7 +7,7 @@
    this is the protocol half; what shutil.move does with the destination it is given
    (known findings: --overwrite of a directory payload over a file; onto a symlink to a directory)
    is library behaviour exercised on the real command. *)
-From TV Require Import Prelude.Str Prog.Prog Cmd.Restore Proofs.ProgProofs Proofs.RestoreProofs Prelude.PosixPath World.World Proofs.WorldProofs Proofs.WorldRestore.
+From TV Require Import Prelude.Str Prog.Prog Cmd.Restore Proofs.ProgProofs Proofs.RestoreProofs Prelude.PosixPath World.World Proofs.WorldProofs Proofs.WorldRestore Proofs.WorldRestore2.
 Open Scope N_scope.
 
 Theorem restore_moves_only_onto_absent : forall o,
@@ -39,3 +39,18 @@ Proof. reflexivity. Qed.
 Example move_onto_absent_accepted :
   accepts (refuse_step false) [] [(Lexists ($"/home/u/a"), RBool false); (Move ($"/t/files/a") ($"/home/u/a"), RUnit)] <> None.
 Proof. discriminate. Qed.
+
+(* trash-restore destroys nothing: whatever exists and is out of the way of every operation of the run - not at or below a payload
+   that is moved out of the trash, not the destination of a move, not at or below a removed path (the info files of the restored
+   entries) - holds at every prefix of the run what it held before; with and without --overwrite.  (trash-restore writes into no
+   file at all: restore_writes_nothing.) *)
+Theorem restore_writes_nothing : forall o,
+  all_runs (fun t _ => Forall (fun p => no_writes (fst p)) t) (restore_main o).
+Proof. exact restore_writes_nothing_lemma. Qed.
+Print Assumptions restore_writes_nothing.
+
+Theorem restore_destroys_nothing : forall o,
+  all_runs (fun t _ => forall s t1 t2 s1, t = t1 ++ t2 -> wrun s t1 s1 ->
+     forall q, wfs s q <> None -> Forall (fun p => clear_of q (fst p)) t -> wfs s1 q = wfs s q) (restore_main o).
+Proof. exact restore_destroys_nothing_lemma. Qed.
+Print Assumptions restore_destroys_nothing.
